@@ -143,6 +143,7 @@ class Interp:
             and v.func.attr == "append"
             and isinstance(v.func.value, ast.Name)
             and getattr(st, "loops", [])
+            and not isinstance(st.env.get(v.func.value.id), SBytes)
         ):
             name = v.func.value.id
             loop: LoopInfo = st.loops[-1]  # type: ignore[attr-defined]
@@ -253,6 +254,8 @@ class Interp:
                                 out.add(x.id)
                 elif isinstance(n, ast.AugAssign) and isinstance(n.target, ast.Name):
                     out.add(n.target.id)
+                elif isinstance(n, ast.Call) and isinstance(n.func, ast.Attribute) and n.func.attr in ("append", "extend") and isinstance(n.func.value, ast.Name):
+                    out.add(n.func.value.id)
         return out
 
     def s_For(self, s: ast.For, st: State) -> t.List[t.Tuple[State, Outcome]]:
